@@ -462,6 +462,12 @@ def _gen_plan(family, rng, tier):
              # a filter expression that accepts every message changes nothing (the scanner then reads each
              # header first and decodes the message a second time)
              'filter': rng.choice([None] * 7 + ['True', '${%length} > 0', '${%n_subsets} >= 0 and ${%edition} > 1'])}
+    if family in ('c20', 'c20-redef', 'c20-ncep') and rng.random() < 0.12:
+        # a filter that rejects exactly the definition messages: they are not yielded, but they were read from
+        # the stream and the messages that follow are still decoded according to them
+        knobs['filter'] = rng.choice(['${%data_category} != 11', 'not (${%data_category} == 11)',
+                                      '${%data_category} in (0, 2, 102, 243, 255)'])
+        knobs['rejects_definitions'] = True
     if rng.random() < 0.25:
         knobs['wire'] = False       # the scan builds no hierarchical structure (what decode -m asks for)
     plan = {'knobs': knobs, 'items': items, 'seps': seps}
@@ -809,9 +815,10 @@ def oracle(plan, tr):
         out.append(dict(base, clause='C20.raise', exc_type=tr['exc']['type'], raise_site=tr['exc']['site']))
         return out
     slots = []
+    rejdef = bool(kn.get('rejects_definitions'))
     for it in items:
         dg = (_h(bytes.fromhex(it['hex'])), len(it['hex']) // 2)
-        slots.append((dg, 'no' if it['kind'] in ('bad', 'baddef', 'orphan') else 'req'))
+        slots.append((dg, 'no' if (it['kind'] in ('bad', 'baddef', 'orphan') or (rejdef and it['kind'] == 'def')) else 'req'))
     deliv = [(d['b'], d['n']) for d in tr['deliveries']]
     if not streamsim._match(deliv, slots):
         # which kind of message went missing?
@@ -819,11 +826,11 @@ def oracle(plan, tr):
         lost = None
         for k, wnt in enumerate(want):
             if k >= len(deliv) or deliv[k] != wnt:
-                lost = [it for it in items if it['kind'] != 'bad'][k]['kind']
+                lost = [it for it in items if it['kind'] != 'bad' and not (rejdef and it['kind'] == 'def')][k]['kind']
                 break
         out.append(dict(base, clause='C20.delivery', lost=lost))
         return out
-    good = [(i, it) for i, it in enumerate(items) if it['kind'] != 'bad']
+    good = [(i, it) for i, it in enumerate(items) if it['kind'] != 'bad' and not (rejdef and it['kind'] == 'def')]
     for (i, it), got in zip(good, tr['deliveries']):
         if it['kind'] == 'def':
             continue
@@ -849,7 +856,7 @@ def shape(plan, tr=None):
                  bool(it.get('reused_template')))
                 for it in plan['items'])
     return (plan['family'], kn.get('sub'), per, kn.get('coe'), kn.get('compiled'), kn.get('filecheck'),
-            bool(kn.get('filter')), plan.get('cut'), kn.get('wire', True))
+            bool(kn.get('filter')), plan.get('cut'), kn.get('wire', True), bool(kn.get('rejects_definitions')))
 
 
 def nontrivial(plan, tr):
@@ -907,6 +914,7 @@ def shrink_candidates(plan):
     if kn.get('filter'):
         p = _copy(plan)
         p['knobs']['filter'] = None
+        p['knobs'].pop('rejects_definitions', None)
         yield p
     if kn.get('wire') is False:
         p = _copy(plan)
